@@ -3,7 +3,7 @@
 From Coq Require Import List Arith NArith ZArith Bool String.
 From Coq.Strings Require Import Byte.
 From Peppi Require Import Base.Bytes Base.Outcome Gen.Funs Model.Ubjson Model.Start Model.Parse Model.Reader Model.Writer Model.Recorder
-  Proofs.TableFacts Proofs.ReadProof Proofs.Corollaries Proofs.C10Proof Proofs.Examples.
+  Gen.ReadTail Proofs.TableFacts Proofs.ReadProof Proofs.Corollaries Proofs.C10Proof Proofs.ReadLayout Proofs.Examples.
 Import ListNotations.
 
 (* for EVERY finished well-formed replay (any version, gecko blocks or not, single or doubled Game End, metadata
@@ -38,6 +38,12 @@ Theorem C10_skip_result_writable : forall r st h,
       g_gecko g2 = g_gecko gs /\ g_quirk g2 = g_quirk gs /\ slp_write g2 = Ok (emit (skipped r))).
 Proof. exact c10_skip_result_writable. Qed.
 
+(* the skip arithmetic (end offset, refusal condition, skip amount), the loop condition and its break event, the gate of the
+   final frame close, the duplicate-Game-End test and the metadata dispatch bytes of the reader model are those regenerated
+   from src/io/slippi/de.rs read() on this run: the whole reader model equals the reader assembled from the regenerated pieces *)
+Theorem C10_reader_from_source : forall o bs0, slp_read o bs0 = slp_read_src o bs0.
+Proof. exact slp_read_from_source. Qed.
+
 Theorem C10_nonvacuous :
   (wf_replay ex_r37 = true /\ res_is_ok (game_start (r_start ex_r37)) = true /\ finished ex_r37 = true) /\
   (wf_replay ex_r10 = true /\ res_is_ok (game_start (r_start ex_r10)) = true /\ finished ex_r10 = true).
@@ -47,3 +53,4 @@ Print Assumptions C10_skip_read.
 Print Assumptions C10_skip_equals_full.
 Print Assumptions C10_skip_result_writable.
 Print Assumptions C10_nonvacuous.
+Print Assumptions C10_reader_from_source.
